@@ -470,14 +470,14 @@ Definition wx_s3 : state := wx_get (exec_from wx_cfg wx_s1 (wx_burst ++ wx_next)
 Lemma wx_runs :
   exec wx_cfg wx_idle = Some wx_s1 /\ exec_from wx_cfg wx_s1 wx_burst = Some wx_s2 /\
   exec_from wx_cfg wx_s1 (wx_burst ++ wx_next) = Some wx_s3.
-Proof. repeat split; vm_compute; reflexivity. Qed.
+Proof. split; [|split]; vm_compute; reflexivity. Qed.
 
 (* the hypotheses of [window_deliveries] hold of a real run, and the bound is attained: 3 deliveries, all at time 100 *)
 Lemma window_bound_tight :
   exec wx_cfg wx_idle = Some wx_s1 /\ exec_from wx_cfg wx_s1 wx_burst = Some wx_s2 /\
   cancelled wx_s2 = false /\ (now wx_s2 < now wx_s1 + 10)%N /\
   delivered wx_s1 0 = [] /\ delivered wx_s2 0 = [100%Z; 101%Z; 102%Z].
-Proof. repeat split; vm_compute; reflexivity. Qed.
+Proof. split; [|split; [|split; [|split; [|split]]]]; vm_compute; reflexivity. Qed.
 
 (* the CLOSED window [t, t + interval] is not bounded by 2*ops+1+c: 4 deliveries within [100, 110] *)
 Lemma closed_window_refuted :
